@@ -5,7 +5,7 @@ import re
 import shutil
 from framework import REPO, ROOT
 
-TIE = []
+TIE = ["Nsq.Tie.AdminAgg"]
 PROPS = ["Nsq.Props.C18"]
 STREAMS = [("views", "^TestVerifE7Views$"), ("malformed", "^TestVerifE7Malformed$")]
 
@@ -417,6 +417,9 @@ def req_key(op):
 
 def run(ctx):
     ctx.trusted += [
+        "translator tools/go2lean (kinds aggstruct, aggadd, aggcounters, aggfetch): struct field lists, the flattened "
+        "statements of TopicStats.Add / ChannelStats.Add, their += statements as a Counters update, and the error "
+        "accounting / key / sort statements of the eight fetch functions of data.go",
         "encoding/json (the model takes decoded upstream answers: null elements, absent members, rejected bodies "
         "are explicit in the cluster description), net/http, httprouter's panic handler",
         "blang/semver: version triples are inputs",
@@ -437,9 +440,10 @@ def run(ctx):
                 "inconsistent answers (short/long tombstones, null array elements, missing latency member, absent channel); "
                 "a case is distinct by its op line, non-trivial when the answer is a 200 with content; oracle: property_fails_on "
                 "(status/warning rule, union of topics, depth/message/backend sums) and process liveness")
-    ok, log = ctx.lean_build(PROPS)
+    ctx.gen("e7_agg")
+    ok, log = ctx.lean_build(TIE + PROPS)
     if not ok:
-        ctx.lean_obligation_failed("lake build " + " ".join(PROPS), log[-1500:])
+        ctx.lean_obligation_failed("lake build " + " ".join(TIE + PROPS), log[-1500:])
     ctx.lean_audit(PROPS, TIE)
     if ctx.thorough():
         ctx.leanchecker(PROPS)
